@@ -251,7 +251,8 @@ func enumStrings(alpha []string, maxLen int, f func(string)) {
 
 func randPathString(r *lib.Rng, maxTok int) string {
 	toks := []string{"a", "b", ".", "..", "/", "/", "\\", ":", "?", "*", "[", "]", "-", "^", "\xc3\xa9", "c:", "//", "\\\\", "a/", "../", "./", "\\\\h\\s", "[a-b]", "[^a]", "\\*", "??", "ab", "C:\\", "\xff", "\xe2\x82",
-		"\\\\.\\UNC\\", "\\\\.\\", "\\\\?\\", "\\??\\", "UNC", "unc", "h", "s", "//./UNC/", "\\\\?\\C:\\", "\\\\.\\unc", "nul", "COM1"}
+		"\\\\.\\UNC\\", "\\\\.\\", "\\\\?\\", "\\??\\", "UNC", "unc", "h", "s", "//./UNC/", "\\\\?\\C:\\", "\\\\.\\unc", "nul", "COM1",
+		"[^\xc3\xa9]", "\xe2\x82\xac", "[^\xe2\x82\xac]", "*?", "*??", "*[^a]", "[a-\xc3\xa9]", "\\[", "[\\]]", "*\xa9", "\xc3", "[!a]", "a*b*", "**"}
 	n := r.Intn(maxTok + 1)
 	var sb strings.Builder
 	for i := 0; i < n; i++ {
@@ -274,7 +275,7 @@ func newTyped(osn string) (avfs.VFS, string) {
 
 func corrPath(seed uint64, tier string, replay []string) *lib.Result {
 	res := &lib.Result{Property: "C13",
-		Rule: "every string up to the length bound over the 12-symbol alphabet {a . / \\ : ? * [ ] - ^ é} through all one-argument functions (one case = one string × 11 functions), every pair up to the pair bound through Join/Rel/Match/Abs, plus random token strings (incl. invalid UTF-8, UNC and drive prefixes) and PathIterator scripts; both OS types; impl built with avfs_setostype; distinct non-trivial = distinct (function, OS, result-shape class) where the result differs from the input or is an error"}
+		Rule: "every string up to the length bound over the 12-symbol alphabet {a . / \\ : ? * [ ] - ^ é} through all one-argument functions (one case = one string × 11 functions), every pair up to the pair bound through Join/Rel/Match/Abs, every Match pattern of up to three tokens (* ? classes escapes multi-byte runes) against every name of up to two tokens (runes, stray continuation bytes), plus random token strings (incl. invalid UTF-8, UNC and drive prefixes) and PathIterator scripts; both OS types; impl built with avfs_setostype; distinct non-trivial = distinct (function, OS, result-shape class) where the result differs from the input or is an error"}
 	st := lib.NewStats()
 	if avfs.BuildFeatures()&avfs.FeatSetOSType == 0 {
 		res.Notes = append(res.Notes, "harness built without avfs_setostype: generic path code not exercised")
@@ -330,6 +331,19 @@ func corrPath(seed uint64, tier string, replay []string) *lib.Result {
 				}
 				lines = append(lines, "path "+osn+" all2 "+lib.Hex(a)+" "+lib.Hex(b))
 				args = append(args, [2]string{a, b})
+			}
+			// Match: every pattern of up to three pattern tokens against every name of up to two name tokens (multi-byte
+			// runes on both sides: '*' backtracks byte by byte, '?' and classes consume runes, invalid bytes are U+FFFD)
+			ptoks := []string{"*", "?", "[^\xc3\xa9]", "[a-\xc3\xa9]", "\xc3\xa9", "a", "\xe2\x82\xac", "x", "[^\xe2\x82\xac]", "\\*"}
+			ntoks := []string{"\xc3\xa9", "\xe2\x82\xac", "a", "x", "\xa9", "\xc3", "*"}
+			var pats, nms []string
+			enumStrings(ptoks, 3, func(s string) { pats = append(pats, s) })
+			enumStrings(ntoks, 2, func(s string) { nms = append(nms, s) })
+			for _, pa := range pats {
+				for _, nm := range nms {
+					lines = append(lines, "path "+osn+" all2 "+lib.Hex(pa)+" "+lib.Hex(nm))
+					args = append(args, [2]string{pa, nm})
+				}
 			}
 			// iterator scripts on absolute paths
 			for i := 0; i < nrand/4; i++ {
